@@ -473,6 +473,26 @@ def _entries(soup: Any, page: str, site: Dict[str, Any], indexpage: bool = False
             if code is not None and code.get_text().strip():
                 site["entries"].append({"page": page, "kind": "overridesNote", "file": "", "frag": "", "ref": code.get_text().strip(),
                                         "private": False, "under_private": under_private(info)})
+    # the lists assembleList() writes - "overridden in A, B" (get_override_info, under the class header and under every
+    # member shown) and "Known subclasses: A, B" (ClassPage.extras): one entry per class NAMED, linked or not (taglink()
+    # refuses hidden targets and leaves <code>full name</code>, which is resolved through the name it displays)
+    def named_list(kind: str, box: Any) -> None:
+        for code in box.find_all("code"):
+            if code.find_parent("code") is not None:
+                continue
+            a = _first_link(code)
+            if a is not None:
+                add(kind, a, False, under_private(box))
+            elif code.get_text().strip():
+                site["entries"].append({"page": page, "kind": kind, "file": "", "frag": "", "ref": code.get_text().strip(),
+                                        "private": False, "under_private": under_private(box)})
+    for info in soup.find_all("div", class_="interfaceinfo"):
+        if info.get_text().strip().startswith("overridden in"):
+            named_list("overriddenInNote", info)
+    for ex in soup.find_all(class_="extrasDocstring"):
+        for par in ex.find_all("p"):
+            if par.get_text().strip().startswith("Known subclasses"):
+                named_list("subclassesNote", par)
     cl = soup.find(id="childList")
     if cl is not None:
         for div in cl.find_all("div", recursive=False):
